@@ -14,3 +14,73 @@ package selector
 //@   ensures [C12] python: pyS(slice[0], length) < pyE(slice[1], length) ==> start == pyS(slice[0], length) && end == pyE(slice[1], length)
 //@   ensures [C12] empty: pyS(slice[0], length) >= pyE(slice[1], length) ==> start == end
 //@   assigns [C20] nothing
+//@
+//@ // ---- C12: resolving a selector is resolving its segments one after the other -----------------------------------
+//@ // the kind of a segment, exactly as resolve discriminates it
+//@ pure func segIter(s segment) bool = !s.identity && s.iterator
+//@ pure func segField(s segment) bool = !s.identity && !s.iterator && s.field != ""
+//@ pure func segSlice(s segment) bool = !s.identity && !s.iterator && s.field == "" && len(s.slice) > 0
+//@ pure func segIndex(s segment) bool = !s.identity && !s.iterator && s.field == "" && len(s.slice) == 0
+//@ pure func wfSeg(s segment) bool = len(s.slice) == 0 || len(s.slice) == 2
+//@ // Python slice bounds for step 1; an empty range is normalised to (0, 0)
+//@ pure func slLo(a int, b int, n int) int = pyS(a, n) < pyE(b, n) ? pyS(a, n) : 0
+//@ pure func slHi(a int, b int, n int) int = pyS(a, n) < pyE(b, n) ? pyE(b, n) : 0
+//@ // negative indexes count from the end
+//@ pure func normIdx(i int, n int) int = i < 0 ? n + i : i
+//@ pure func idxOK(i int, n int) bool = 0 <= normIdx(i, n) && normIdx(i, n) < n
+//@
+//@ // one segment applied to the current value (nil = "no value"): does it fail with an error ...
+//@ // (a, b: the bounds of a slice segment; heap-free so that the solver unfolds the definition on demand)
+//@ opaque func stepFails4(s segment, a int, b int, cur datamodel.Node) bool =
+//@     s.identity ? false
+//@   : segIter(s) ? ((cur == nil || nodeKind(cur) == datamodel.Kind_Null) ? !s.optional : (nodeKind(cur) != datamodel.Kind_List && nodeKind(cur) != datamodel.Kind_Map))
+//@   : segField(s) ? (!s.optional && (cur == nil || nodeKind(cur) != datamodel.Kind_Map || lookupStrErr(cur, s.field) != nil))
+//@   : segSlice(s) ? (cur == nil ? !s.optional : (nodeKind(cur) != datamodel.Kind_List && nodeKind(cur) != datamodel.Kind_Bytes && nodeKind(cur) != datamodel.Kind_String))
+//@   : (cur == nil ? !s.optional
+//@      : nodeKind(cur) == datamodel.Kind_List ? (!s.optional && !idxOK(s.index, listLen(cur)))
+//@      : nodeKind(cur) == datamodel.Kind_Bytes ? (!s.optional && !idxOK(s.index, len(nodeBytes(cur))))
+//@      : true)
+//@ // ... and otherwise, which value (or nil for "no value") does it yield
+//@ opaque func stepVal4(s segment, a int, b int, cur datamodel.Node) datamodel.Node =
+//@     s.identity ? cur
+//@   : segIter(s) ? ((cur == nil || nodeKind(cur) == datamodel.Kind_Null) ? listOf(seqEmpty()) : (nodeKind(cur) == datamodel.Kind_List ? cur : listOf(mapValues(cur))))
+//@   : segField(s) ? ((cur != nil && nodeKind(cur) == datamodel.Kind_Map && lookupStrErr(cur, s.field) == nil) ? lookupStr(cur, s.field) : nil)
+//@   : segSlice(s) ? (cur == nil ? nil
+//@        : nodeKind(cur) == datamodel.Kind_List ? listOf(listRange(cur, slLo(a, b, listLen(cur)), slHi(a, b, listLen(cur))))
+//@        : nodeKind(cur) == datamodel.Kind_Bytes ? bytesNode(substr(nodeBytes(cur), slLo(a, b, len(nodeBytes(cur))), slHi(a, b, len(nodeBytes(cur)))))
+//@        : stringNode(runeSlice(nodeStr(cur), slLo(a, b, runeCount(nodeStr(cur))), slHi(a, b, runeCount(nodeStr(cur))))))
+//@   : (cur == nil ? nil
+//@      : nodeKind(cur) == datamodel.Kind_List ? (idxOK(s.index, listLen(cur)) ? listElem(cur, normIdx(s.index, listLen(cur))) : nil)
+//@      : (idxOK(s.index, len(nodeBytes(cur))) ? intNode(nodeBytes(cur)[normIdx(s.index, len(nodeBytes(cur)))]) : nil))
+//@ pure func slA(s segment) int = len(s.slice) == 2 ? s.slice[0] : 0
+//@ pure func slB(s segment) int = len(s.slice) == 2 ? s.slice[1] : 0
+//@ pure func stepFails(s segment, cur datamodel.Node) bool = stepFails4(s, slA(s), slB(s), cur)
+//@ pure func stepVal(s segment, cur datamodel.Node) datamodel.Node = stepVal4(s, slA(s), slB(s), cur)
+//@
+//@ // the value after the first i segments (a trace, defined by recursion over the selector in the heap)
+//@ ghost func tr(sel Selector, subject datamodel.Node, i int) datamodel.Node
+//@
+//@ func resolve
+//@   requires forall i int :: 0 <= i && i < len(sel) ==> wfSeg(sel[i])
+//@   given tr(sel, subject, 0) == subject
+//@   given forall i int :: {tr(sel, subject, i + 1)} 0 <= i && i < len(sel) ==> tr(sel, subject, i + 1) == stepVal(sel[i], tr(sel, subject, i))
+//@   use node_sizes, seq_len, seq_empty, seq_snoc, seq_ext, list_of, map_values, list_range
+//@   ensures [C12] value: result1 == nil ==> result0 == tr(sel, subject, len(sel)) && (forall i int :: 0 <= i && i < len(sel) ==> !stepFails(sel[i], tr(sel, subject, i)))
+//@   ensures [C12] error: result1 != nil ==> result0 == nil && (exists j int :: 0 <= j && j < len(sel) && stepFails(sel[j], tr(sel, subject, j)) && (forall i int :: 0 <= i && i < j ==> !stepFails(sel[i], tr(sel, subject, i))))
+//@   ensures [C09] total: true
+//@   assigns at
+//@   loop 0: invariant 0 <= k && k <= len(sel) && (fresh(at) || samebase(at, entry(at)))
+//@   loop 0: invariant trace: cur == tr(sel, subject, k)
+//@   loop 0: invariant nofail: forall i int :: 0 <= i && i < k ==> !stepFails(sel[i], tr(sel, subject, i))
+//@           decreases len(sel) - k
+//@ // the callbacks that build lists: the values of a map, a range of a list
+//@ func resolve$3
+//@   loop 0: invariant it != nil && mitNode(it) == cur && 0 <= mitPos(it) && mitPos(it) <= mapLen(cur) && nodeKind(cur) == datamodel.Kind_Map && seqLen(assembled(l)) == mitPos(it)
+//@   loop 0: invariant forall j int :: {seqAt(assembled(l), j)} 0 <= j && j < mitPos(it) ==> seqAt(assembled(l), j) == mapValAt(cur, j)
+//@           decreases mapLen(cur) - mitPos(it)
+//@ func resolve$4
+//@   loop 0: invariant start <= i && i <= end && seqLen(assembled(l)) == i - start
+//@   loop 0: invariant forall j int :: {seqAt(assembled(l), j)} 0 <= j && j < i - start ==> seqAt(assembled(l), j) == listElem(cur, start + j)
+//@           decreases end - i
+//@ func (Selector).Select
+//@   inline
